@@ -146,3 +146,45 @@ MAT_ALL (Matrix44, m44, "M44", 4)
 EXTRACT_ALLT ("C04Mat", m22_ctor4, "M22.ctorElems", { IN (Matrix22, a); c.out (Matrix22<T> (a.x[0][0], a.x[0][1], a.x[1][0], a.x[1][1])); })
 EXTRACT_ALLT ("C04Mat", m33_ctor9, "M33.ctorElems", { IN (Matrix33, a); c.out (Matrix33<T> (a.x[0][0], a.x[0][1], a.x[0][2], a.x[1][0], a.x[1][1], a.x[1][2], a.x[2][0], a.x[2][1], a.x[2][2])); })
 EXTRACT_ALLT ("C04Mat", m44_ctor16, "M44.ctorElems", { IN (Matrix44, a); c.out (Matrix44<T> (a.x[0][0], a.x[0][1], a.x[0][2], a.x[0][3], a.x[1][0], a.x[1][1], a.x[1][2], a.x[1][3], a.x[2][0], a.x[2][1], a.x[2][2], a.x[2][3], a.x[3][0], a.x[3][1], a.x[3][2], a.x[3][3])); })
+
+// ---- stream output: the printed text with one opaque token per element, in three stream states
+#include <sstream>
+#include <iomanip>
+#define SHOW3(M, Ty, id, L)                                                                          \
+    EXTRACT_ALLT (M, id##_show, L ".show", { IN (Ty, a); std::ostringstream os; os << a; c.outStr (os.str ()); })            \
+    EXTRACT_ALLT (M, id##_showFixed, L ".showFixed", { IN (Ty, a); std::ostringstream os; os << std::fixed << std::setprecision (3) << a; c.outStr (os.str ()); }) \
+    EXTRACT_ALLT (M, id##_showSci, L ".showSci", { IN (Ty, a); std::ostringstream os; os << std::scientific << std::setprecision (9) << a; c.outStr (os.str ()); })
+SHOW3 ("C04Show", Vec2, v2, "V2") SHOW3 ("C04Show", Vec3, v3, "V3") SHOW3 ("C04Show", Vec4, v4, "V4")
+SHOW3 ("C04Show", Color3, c3, "C3") SHOW3 ("C04Show", Color4, c4, "C4") SHOW3 ("C04Show", Shear6, sh, "Shear6") SHOW3 ("C04Show", Quat, q, "Quat")
+SHOW3 ("C04Show", Matrix22, m22, "M22") SHOW3 ("C04Show", Matrix33, m33, "M33") SHOW3 ("C04Show", Matrix44, m44, "M44")
+
+// ---- aliasing: compound operators whose right operand is the object itself or one of its own elements
+// (a by-reference scalar parameter or an in-place body that reads an already updated member changes these)
+#define G_SELF(M, Ty, id, L)                                                                         \
+    EXTRACT_ALLT (M, id##_addSelf, L ".addAssignSelf", { IN (Ty, a); a += a; c.out (a); })            \
+    EXTRACT_ALLT (M, id##_subSelf, L ".subAssignSelf", { IN (Ty, a); a -= a; c.out (a); })
+#define G_SELFMD(M, Ty, id, L)                                                                       \
+    EXTRACT_ALLT (M, id##_mulSelf, L ".mulAssignSelf", { IN (Ty, a); a *= a; c.out (a); })            \
+    EXTRACT_ALLT_OPT (M, id##_divSelf, L ".divAssignSelf", NZ, { IN (Ty, a); a /= a; c.out (a); })
+#define G_ALIAS(M, Ty, id, L, N)                                                                     \
+    EXTRACT_ALLT (M, id##_mulAlias0, L ".mulSAssignAliasFirst", { IN (Ty, a); T* p = reinterpret_cast<T*> (&a); a *= p[0]; c.out (a); })       \
+    EXTRACT_ALLT (M, id##_mulAliasL, L ".mulSAssignAliasLast", { IN (Ty, a); T* p = reinterpret_cast<T*> (&a); a *= p[N - 1]; c.out (a); })    \
+    EXTRACT_ALLT_OPT (M, id##_divAlias0, L ".divSAssignAliasFirst", NZ, { IN (Ty, a); T* p = reinterpret_cast<T*> (&a); a /= p[0]; c.out (a); })    \
+    EXTRACT_ALLT_OPT (M, id##_divAliasL, L ".divSAssignAliasLast", NZ, { IN (Ty, a); T* p = reinterpret_cast<T*> (&a); a /= p[N - 1]; c.out (a); })
+#define ALIAS_ALL(M, Ty, id, L, N) G_SELF (M, Ty, id, L) G_ALIAS (M, Ty, id, L, N)
+ALIAS_ALL ("C04Alias", Vec2, v2, "V2", 2) G_SELFMD ("C04Alias", Vec2, v2, "V2")
+ALIAS_ALL ("C04Alias", Vec3, v3, "V3", 3) G_SELFMD ("C04Alias", Vec3, v3, "V3")
+ALIAS_ALL ("C04Alias", Vec4, v4, "V4", 4) G_SELFMD ("C04Alias", Vec4, v4, "V4")
+ALIAS_ALL ("C04Alias", Color3, c3, "C3", 3) G_SELFMD ("C04Alias", Color3, c3, "C3")
+ALIAS_ALL ("C04Alias", Color4, c4, "C4", 4) G_SELFMD ("C04Alias", Color4, c4, "C4")
+ALIAS_ALL ("C04Alias", Shear6, sh, "Shear6", 6) G_SELFMD ("C04Alias", Shear6, sh, "Shear6")
+ALIAS_ALL ("C04Alias", Quat, q, "Quat", 4)
+ALIAS_ALL ("C04Alias", Matrix22, m22, "M22", 4)
+ALIAS_ALL ("C04Alias", Matrix33, m33, "M33", 9)
+ALIAS_ALL ("C04Alias", Matrix44, m44, "M44", 16)
+EXTRACT_ALLT ("C04Alias", m22_addSAlias, "M22.addSAssignAliasFirst", { IN (Matrix22, a); a += a.x[0][0]; c.out (a); })
+EXTRACT_ALLT ("C04Alias", m33_addSAlias, "M33.addSAssignAliasFirst", { IN (Matrix33, a); a += a.x[0][0]; c.out (a); })
+EXTRACT_ALLT ("C04Alias", m44_addSAlias, "M44.addSAssignAliasFirst", { IN (Matrix44, a); a += a.x[0][0]; c.out (a); })
+EXTRACT_ALLT ("C04Alias", m22_subSAlias, "M22.subSAssignAliasFirst", { IN (Matrix22, a); a -= a.x[0][0]; c.out (a); })
+EXTRACT_ALLT ("C04Alias", m33_subSAlias, "M33.subSAssignAliasFirst", { IN (Matrix33, a); a -= a.x[0][0]; c.out (a); })
+EXTRACT_ALLT ("C04Alias", m44_subSAlias, "M44.subSAssignAliasFirst", { IN (Matrix44, a); a -= a.x[0][0]; c.out (a); })
